@@ -8,7 +8,8 @@ VARIABLES in, w, h
 A == Plain("a")
 B == [Plain("b") EXCEPT !.s = <<"1">>, !.r = TRUE]
 Ell == [Plain("~") EXCEPT !.s = <<"38;2;1;2;3">>, !.r = TRUE]
-Alphabet == {A, B, SpCell, NlCell}
+NlS == [NlCell EXCEPT !.s = <<"4">>]        \* a line break that carries styling of its own (ESC[4m before it)
+Alphabet == {A, B, SpCell, NlCell, NlS}
 Texts == UNION {[1..n -> Alphabet] : n \in 0..MaxLen}
 
 Init == in \in Texts /\ w \in 1..MaxW /\ h \in 1..MaxH
@@ -25,7 +26,7 @@ ApplyHolds    == Fn = "apply"  => ApplyOK(in, "9", ApplyAlg(in, "9")) /\ ApplyOK
 (* wrapping what was padded keeps the padding (the comment in ansi.Wrap), and is idempotent *)
 WrapIdempotent == Fn = "wrap"  => LET t == WrapAlg(in, w) IN WrapAlg(t, w) = t
 (* generation: every text once, as a string of codes a (plain glyph), b (styled glyph), s, n *)
-Code(c) == IF c = A THEN "a" ELSE IF c = B THEN "b" ELSE IF c = SpCell THEN "s" ELSE "n"
+Code(c) == IF c = A THEN "a" ELSE IF c = B THEN "b" ELSE IF c = SpCell THEN "s" ELSE IF c = NlS THEN "m" ELSE "n"
 Codes(t) == FoldLeft(LAMBDA acc, c : acc \o Code(c), "", t)
 GenEmit == (w = 1 /\ h = 1) => PrintT("GEN " \o ToJson(Codes(in)))
 =============================================================================
